@@ -22,6 +22,8 @@
    * `edges_connecting(a, b)` = `edges_directed(a, Outgoing)` filtered by `node[1] == b`:
      every edge between `a` and `b` whatever the order in which the endpoints were given to
      `add_edge`; for `a == b` the self-loops of `a`.
+   * `edge_endpoints(e)` = the endpoints in the order given to `add_edge`.  Since commit 9283409
+     `remove_relation` keeps only the edges stored from source to target.
    * `remove_node` first removes every edge incident to the node; it returns `None` without
      touching anything when the node is vacant.
    * `TarjanScc::run` on an undirected graph reports the connected components (`neighbors`
@@ -82,14 +84,21 @@ Definition remove_entity (g : rgraph) (n : N) : rgraph :=
   {| g_edges := filter (fun e => negb (incident n e)) (g_edges g);
      g_nodes := filter (fun x => negb (x =? n)) (g_nodes g) |}.
 
+(* `graph.edge_endpoints(e.id()) == Some((source_node, target_node))`: the edge is STORED from
+   source to target (`add_edge(source_node, target_node, ..)` stores the endpoints as given) *)
+Definition stored_as (a b : N) (e : edge) : bool := (edge_source e =? a) && (edge_target e =? b).
+
+(* the edges put into `remove_buffer`:
+   edges_connecting(source, target).filter(weight == type_id).filter(edge_endpoints == (source, target)) *)
+Definition to_remove (kind source target : N) (e : edge) : bool :=
+  connects source target e && (edge_kind e =? kind) && stored_as source target e.
+
 (* `remove_relation::<C>(source, target)` *)
 Definition remove_relation (g : rgraph) (kind source target : N) : rgraph :=
   if negb (registered g source) then g
   else if negb (registered g target) then g
   else
-    (* remove_buffer = edges_connecting(source, target).filter(weight == type_id); remove them all *)
-    let g1 := {| g_edges := filter (fun e => negb (connects source target e && (edge_kind e =? kind)))
-                                   (g_edges g);
+    let g1 := {| g_edges := filter (fun e => negb (to_remove kind source target e)) (g_edges g);
                  g_nodes := g_nodes g |} in
     let g2 := if is_orphan g1 target then remove_entity g1 target else g1 in
     let g3 := if is_orphan g2 source then remove_entity g2 source else g2 in
